@@ -240,11 +240,12 @@ CHECKS["C12"] = {
     "engine": "E3 schedule explorer + free-running ThreadSanitizer pass",
     "jobs": lambda tier: [job("C12.cpp", "C12_sched", ["-DVMODE=0"], link=["-lpthread", "-ldl"], weight=5),
                           job("C12.cpp", "C12_tsan", ["-DVMODE=1"], cxx="clang++", flags=["-fsanitize=thread"], link=["-lpthread"], shards=4,
-                              env={"TSAN_OPTIONS": "halt_on_error=1 exitcode=66 report_signal_unsafe=0"})],
-    "rule": "(a) unit = (order, N, K): ALL N! executor orders vs SerialExecutor, bitwise; (b) unit = assignment of the N segments to worker threads: the workers run under the cooperative scheduler with scheduling points before each segment and inside each running-cost call, ALL interleavings with <= 2 preemptions, bitwise equal to serial; (c) unit = (cold|warm optimizer, flags none|all, user|default maps): 2 (quick) / 3 (thorough) threads each call evaluate(x_j, grad_j, ..., own workspace) on one optimizer, scheduling points at every call-out into the time/spatial map and at every (interposed) pthread mutex lock/unlock, ALL schedules with <= 2 (quick) / <= 3 (thorough) preemptions, each thread's (cost, gradient) bitwise equal to the same call made serially, no deadlock, no crash; (d) the same thread bodies free-running under ThreadSanitizer (a monitor, not an enumeration); distinct = distinct interleaving traces; non-trivial = every E3 unit",
+                              env={"TSAN_OPTIONS": "halt_on_error=1 exitcode=66 report_signal_unsafe=0"}),
+                          job("C12.cpp", "C12_omp", ["-DVMODE=2"], flags=["-fopenmp"], link=["-lpthread"], shards=2)],
+    "rule": "(a) unit = (order, N, K): ALL N! executor orders vs SerialExecutor, bitwise; (b) unit = assignment of the N segments to worker threads: the workers run under the cooperative scheduler with scheduling points before each segment and inside each running-cost call, ALL interleavings with <= 2 preemptions, bitwise equal to serial; (c) unit = (cold|warm optimizer, flags none|all, user|default maps): 2 (quick) / 3 (thorough) threads each call evaluate(x_j, grad_j, ..., own workspace) on one optimizer, scheduling points at every call-out into the time/spatial map and at every (interposed) pthread mutex lock/unlock, ALL schedules with <= 2 (quick) / <= 3 (thorough) preemptions, each thread's (cost, gradient) bitwise equal to the same call made serially, no deadlock, no crash; (d) the same thread bodies free-running under ThreadSanitizer (a monitor, not an enumeration); (e) built with -fopenmp: the library's own OpenMPExecutor with 1..4 threads vs SerialExecutor for N = 1..8, and 3 concurrent evaluate() calls issued by the threads of one OpenMP parallel region or by std::threads, with OpenMPExecutor (nested) or SerialExecutor, cold and warm, repeated (a monitor as well); distinct = distinct interleaving traces; non-trivial = every E3 unit",
     "bounds": {"quick": "(a) N <= 5; (b) quintic, N in {2,3}, 2 workers, bound 2; (c) quintic, 2 threads, N=3, bound 2; (d) 20 repetitions x 3 orders", "thorough": "(a) N <= 7; (b) 3 orders, N in {2,3,4}, 3 workers, bound 2; (c) 3 orders, 3 threads, bound 3; (d) 60 repetitions"},
     "thresholds": {"all comparisons": "bitwise"},
-    "assumptions": ASSUME_OPT + ["scheduling points are the library's call-outs into harness types and pthread mutex operations; a race between plain loads/stores with no call-out in between is visible only to the ThreadSanitizer pass", "sequentially consistent interleavings only (no weak-memory reorderings)", "OpenMPExecutor itself is not run under the scheduler; the per-segment lambda it executes is"],
+    "assumptions": ASSUME_OPT + ["scheduling points are the library's call-outs into harness types and pthread mutex operations; a race between plain loads/stores with no call-out in between is visible only to the ThreadSanitizer pass", "sequentially consistent interleavings only (no weak-memory reorderings)", "OpenMPExecutor is not run under the scheduler (its threads belong to the OpenMP runtime): it is exercised free-running in part (e); the per-segment lambda it executes is explored under the scheduler in part (b)"],
     "technique": "stateless model checking of the implementation: preemption-bounded exhaustive DFS over thread schedules under a cooperative scheduler (iterative context bounding), every execution in a forked child; plus exhaustive enumeration of executor orders/partitions; ThreadSanitizer as a separate free-running monitor",
     "level_text": "all schedules up to the stated preemption bound are executed on the real optimizer; the evidence reports schedules, distinct interleaving traces and the completed bound",
 }
